@@ -4,6 +4,8 @@
 
     iri.parse <s>                      → recompose (split s)                      (Spec.RFC3986)
     iri.resolve <base> <ref>           → resolve base ref                         (Spec.RFC3986)
+    iri.chain <base> <ref1> <ref2> …   → resolve (resolve base ref1) ref2 …, every step      (Spec.RFC3986)
+    iri.sticky <ref> <earlier…>        → 0|1: chain class chain-sticky-empty-fragment
     iri.resolvePath <base> <ref>       → Model.IRI.resolvePath base ref
     iri.classes <p|r> <a> <b>          → names of the known-finding classes holding on the input
     iri.reclass <scheme> <opaque> <host> <path> <rawpath> <s>
@@ -29,6 +31,17 @@ def handle (op : String) (args : List String) : Option String :=
     let b ← bytesTok b
     let r ← bytesTok r
     pure (tokOfBytes (Spec.RFC3986.resolve b r))
+  | "chain", b :: rs => do
+    -- iterated resolution: resolve (resolve b r1) r2 …; one result per step
+    let b ← bytesTok b
+    let rs ← rs.mapM bytesTok
+    let steps := (rs.foldl (fun (acc : List (List Nat) × List Nat) r =>
+      let t := Spec.RFC3986.resolve acc.2 r; (t :: acc.1, t)) ([], b)).1.reverse
+    pure (String.intercalate "," (steps.map tokOfBytes))
+  | "sticky", r :: earlier => do
+    let r ← bytesTok r
+    let earlier ← earlier.mapM bytesTok
+    pure (b01 (C12.chainStickyEmptyFragment earlier r))
   | "resolvePath", [b, r] => do
     let b ← bytesTok b
     let r ← bytesTok r
